@@ -144,8 +144,15 @@ func (v *VFD) Snapshot() (wire []byte, ctl []string, log []string, closed bool, 
 	return append([]byte(nil), v.Wire...), append([]string(nil), v.Ctl...), append([]string(nil), v.Log...), v.Closed, len(v.Rq)
 }
 
+// ZeroLen, when set, answers write-like calls whose request is empty (the kernel returns 0 for
+// those without needing room, so no scripted answer is consumed).
+var ZeroLen func(v *VFD) (int, error)
+
 func (v *VFD) answer(want int) (int, error) {
 	v.Writes++
+	if want == 0 && ZeroLen != nil {
+		return ZeroLen(v)
+	}
 	if len(v.Script) == 0 {
 		return -1, syscall.EAGAIN // exhausted script: kernel is full from now on
 	}
@@ -302,8 +309,20 @@ func evString(ev uint32) string {
 	return s
 }
 
+// CtlHook, when set, is called at the entry of every epoll_ctl on a virtual descriptor (before the
+// call takes effect and without any shim lock held): a yield point for schedule forcing between a
+// decision taken by the caller and its epoll_ctl.
+var CtlHook func(fd, op int, events uint32)
+
 func EpollCtl(epfd, op, fd int, ev *syscall.EpollEvent) error {
 	if v := get(fd); v != nil {
+		if h := CtlHook; h != nil {
+			var e uint32
+			if ev != nil {
+				e = ev.Events
+			}
+			h(fd, op, e)
+		}
 		v.mu.Lock()
 		defer v.mu.Unlock()
 		switch op {
@@ -356,6 +375,19 @@ func Inject(epfd int, evs []syscall.EpollEvent) {
 	ch, id := chans(epfd)
 	ch <- evs
 	<-id
+}
+
+// InjectAsync delivers the batch like Inject but returns at once; the channel is closed when the poller
+// has processed the whole batch and re-entered EpollWait (the caller can watch for progress meanwhile).
+func InjectAsync(epfd int, evs []syscall.EpollEvent) <-chan struct{} {
+	ch, id := chans(epfd)
+	done := make(chan struct{})
+	go func() {
+		ch <- evs
+		<-id
+		close(done)
+	}()
+	return done
 }
 
 // InjectTimeout is Inject with a bound on the wait for the acknowledgement; false = the poller did
